@@ -77,7 +77,8 @@ def gallina_diags(s):
     return "(Some [%s])" % "; ".join(items)
 
 
-COQ_ROOT = ("(root_tab 1 36 [(100, KOverloaded [400] true); (101, KOverloaded [401] true); (102, KOverloaded [402] true); "
+COQ_ROOT = ("(root_tab 1 44 [(7, KPort MIn); (13, KPort MIn); (17, KPort MIn); (37, KPort MOut); (38, KPort MOut); (39, KPort MOut); "
+            "(40, KPort MInOut); (41, KPort MBuffer); (42, KPort MIn); (43, KPort MOut); (44, KPort MOut); (100, KOverloaded [400] true); (101, KOverloaded [401] true); (102, KOverloaded [402] true); "
             "(205, KOverloaded [403; 404] true); (206, KOverloaded [410; 411; 412; 413] false); (207, KOverloaded [414; 415] false); "
             "(208, KOverloaded [416; 417] false); (209, KOverloaded [418; 419] false); (228, KOverloaded [420; 421] false); "
             "(229, KOverloaded [422; 423] false); (400, KParam MIn true); (401, KParam MIn true); (402, KParam MIn false); "
@@ -386,11 +387,12 @@ def main(tier, replay=None):
     res.coverage["known_finding_F20_reproduced"] = st.f20
     res.coverage["exhaustive"] = False
     res.coverage["rule"] = (
-        "corpus (F14, F15, F20a-d, two observations, multi-level list entries M1-M4, seven clocked shapes K1-K7) first; then random processes from the family: 1-4 top-level statements, "
+        "corpus (F14, F15, F20a-d, two observations, multi-level list entries M1-M4, ports of every mode P1-P2, seven clocked shapes K1-K7) first; then random processes from the family: 1-4 top-level statements, "
         "nesting <= 3 (thorough: also 4) of signal/variable assignments (simple, conditional, selected, force, release), "
         "if/elsif/else, case, for/while/plain loops with next/exit, procedure calls (positional and named; in, inout, out), "
         "assert/report, null; expressions over bit, integer, bit_vector, array, record and boolean signals, variables, "
-        "literals: indexed and sliced names, record elements, a selected package signal, function calls (positional/named), "
+        "literals (signal pool: internal signals, a package signal, ports of mode in, out (read back), inout, buffer, record "
+        "and array ports; aliases of a signal and of an out port in the heuristic cases): indexed and sliced names, record elements, a selected package signal, function calls (positional/named), "
         "operators, aggregates, qualified and parenthesised expressions, 'image; sensitivity lists = random subset of the "
         "working set plus signals never read, entries as simple, indexed or sliced names; 7% clocked: the edge test "
         "(rising_edge/falling_edge call or 'event) in the first condition or in the second of exactly two, as the "
